@@ -709,6 +709,28 @@ PPL::MIP_Problem::process_pending_constraints() {
     }
   }
 
+  // parse_constraints() has evaluated the pending inequalities at
+  // `last_generator', but the first phase starts from the basic solution of
+  // `tableau', which is a different point after the resolution of a problem
+  // having integer variables (then `last_generator' is the point found
+  // for a descendant problem) and after the merging of a split variable
+  // whose negative part was in base: check again on the basic solution.
+  if (internal_space_dim > 0
+      && std::count(is_satisfied_inequality.begin(),
+                    is_satisfied_inequality.end(), true) > 0) {
+    const dimension_type saved_space_dim = external_space_dim;
+    external_space_dim = internal_space_dim;
+    compute_generator();
+    external_space_dim = saved_space_dim;
+    for (dimension_type i = is_satisfied_inequality.size(); i-- > 0; ) {
+      if (is_satisfied_inequality[i]
+          && !is_satisfied(*(input_cs[first_pending_constraint + i]),
+                           last_generator)) {
+        is_satisfied_inequality[i] = false;
+      }
+    }
+  }
+
   const dimension_type old_tableau_num_rows = tableau.num_rows();
   const dimension_type old_tableau_num_cols = tableau.num_columns();
   const dimension_type first_free_tableau_index = old_tableau_num_cols - 1;
